@@ -31,6 +31,9 @@ CORPUS = [
     # annotations made of symbolic / fixed / anonymous axes only: their verdict still depends on the context
     S(("n", (5,)), ("2*n", (10,))), S(("n", (3,)), ("2*n", (10,))), S(("n", (3,)), ("2*n", (6,))), S(("2*n", (10,))),
     S(("{k} 2", (2, 2))), S(("{k} 2", (2, 2)), args={"k": 3, "m": 5}), S(("n", (4,)), ("... #n+1 3", (5, 3))), S(("n", (2,)), ("... #n+1 3", (5, 3))),
+    # call arguments named like axes: `{a}` is the argument, bare `a` the axis
+    S(("a", (3,)), ("{a}", (2,)), args={"a": 2, "k": 2, "m": 5}), S(("a", (3,)), ("{a}", (3,)), args={"a": 2, "k": 2, "m": 5}), S(("2*n", (4,)), args={"n": 2, "k": 2, "m": 5}),
+    S(("n", (3,)), ("2*n", (6,)), args={"n": 2, "k": 2, "m": 5}), S(("n", (3,)), ("2*n {n}", (6, 2)), args={"n": 2, "k": 2, "m": 5}), S(("{a} a", (2, 3)), ("a", (2,)), args={"a": 2, "k": 2, "m": 5}),
     S(("min(a,b) a b", (2, 2, 3))), S(("a b a%b", (7, 3, 1))), S(("a b a//b", (7, 3, 2))), S(("a -a+10", (4, 6))), S(("d=4 rows=a", (4, 2))),
 ]
 
